@@ -308,11 +308,13 @@ def check_bounded_accumulation(ctx: Ctx, model: ExcModel, fi: FunctionInfo, labe
     for ap in appends:
         if not (ap.args and isinstance(ap.args[0], ast.Name)):
             raise AnalysisError(f"C18: unsupported append argument `{txt(ap)}`")
-        ch = ap.args[0].id
+        chv = ap.args[0].id
         n_sites += 1
-        defs = [n for n in walk_scope(fi.node) if isinstance(n, ast.Assign) and any(isinstance(t, ast.Name) and t.id == ch for t in n.targets)]
+        defs = [n for n in walk_scope(fi.node) if isinstance(n, ast.Assign) and any(isinstance(t, ast.Name) and t.id == chv for t in n.targets)]
         if not defs:
-            raise AnalysisError(f"C18: chunk `{ch}` has no defining assignment in {fi.fq}")
+            raise AnalysisError(f"C18: chunk `{chv}` has no defining assignment in {fi.fq}")
+        # instance key: how the chunk is produced (read / decompress / flush), never the local's spelling
+        ch = "+".join(sorted({last_attr(d.value) for d in defs if isinstance(d.value, ast.Call)})) or "chunk"
         # (1) bounded, non-zero request size
         for d in defs:
             v = d.value
@@ -326,7 +328,7 @@ def check_bounded_accumulation(ctx: Ctx, model: ExcModel, fi: FunctionInfo, labe
             if size is None:
                 ctx.fail("RF-BOUND", f"{label}:chunk-bounded:{ch}", fi, d, f"`{txt(v)}` requests an unbounded chunk under a cap: the whole output is materialised before the cap is tested")
                 continue
-            totals = _total_names(fi, ch)
+            totals = _total_names(fi, chv)
             bad = None
             for t in (0, C - 1, C):
                 env = dict(menv)
@@ -346,7 +348,7 @@ def check_bounded_accumulation(ctx: Ctx, model: ExcModel, fi: FunctionInfo, labe
                       + ("a zero-size request means 'unlimited' (zlib) / 'end of stream' (zstd reader): the cap is bypassed or the output silently truncated" if bad and bad[1] == 0 else "the request is not bounded"))
         # (2) an appended chunk is counted before more output is produced / the buffer is returned
         augs = [n for n in walk_scope(fi.node) if isinstance(n, ast.AugAssign) and isinstance(n.op, ast.Add) and isinstance(n.target, ast.Name)
-                and isinstance(n.value, ast.Call) and last_attr(n.value) == "len" and n.value.args and isinstance(n.value.args[0], ast.Name) and n.value.args[0].id == ch]
+                and isinstance(n.value, ast.Call) and last_attr(n.value) == "len" and n.value.args and isinstance(n.value.args[0], ast.Name) and n.value.args[0].id == chv]
         def_done: set[int] = set()
         for d in defs:
             def_done |= cfg.done(d)
